@@ -12,74 +12,8 @@ use crate::socket::Socket;
 use serde::{Deserialize, Serialize};
 use std::cell::RefCell;
 use std::panic::{self, AssertUnwindSafe};
+pub use crate::harness::panics::*;
 use std::sync::mpsc::{self, Receiver, Sender};
-use std::sync::Mutex;
-
-// ---------------------------------------------------------------- panic capture
-
-#[derive(Clone, Debug, Serialize, Deserialize, PartialEq, Eq)]
-pub struct PanicInfo {
-    pub file: String,
-    pub line: u32,
-    pub msg: String,
-}
-
-static LAST_PANIC: Mutex<Option<PanicInfo>> = Mutex::new(None);
-
-pub fn install_panic_hook() {
-    panic::set_hook(Box::new(|info| {
-        let (file, line) = info.location().map(|l| (l.file().to_string(), l.line())).unwrap_or((String::from("?"), 0));
-        let msg = if let Some(s) = info.payload().downcast_ref::<&str>() {
-            s.to_string()
-        } else if let Some(s) = info.payload().downcast_ref::<String>() {
-            s.clone()
-        } else {
-            String::from("<non-string panic payload>")
-        };
-        if let Ok(mut g) = LAST_PANIC.lock() {
-            *g = Some(PanicInfo { file, line, msg });
-        }
-    }));
-}
-
-pub fn take_panic() -> Option<PanicInfo> {
-    LAST_PANIC.lock().ok().and_then(|mut g| g.take())
-}
-
-// ---------------------------------------------------------------- abort marker
-
-/// Error returned by a loop callback to end `run()` on purpose (step cap, oracle stop).
-#[derive(Debug)]
-pub struct VerifAbort(pub String);
-impl std::fmt::Display for VerifAbort {
-    fn fmt(&self, f: &mut std::fmt::Formatter<'_>) -> std::fmt::Result {
-        write!(f, "verif-abort: {}", self.0)
-    }
-}
-impl std::error::Error for VerifAbort {}
-
-pub fn abort(reason: impl Into<String>) -> anyhow::Error {
-    anyhow::Error::new(VerifAbort(reason.into()))
-}
-
-#[derive(Clone, Debug, Serialize, Deserialize, PartialEq, Eq)]
-pub enum Outcome {
-    Ok,
-    Err(String),
-    Abort(String),
-    Panic(PanicInfo),
-}
-
-impl Outcome {
-    pub fn class(&self) -> &'static str {
-        match self {
-            Outcome::Ok => "ok",
-            Outcome::Err(_) => "err",
-            Outcome::Abort(_) => "abort",
-            Outcome::Panic(_) => "panic",
-        }
-    }
-}
 
 // ---------------------------------------------------------------- host clock models
 
@@ -236,29 +170,6 @@ impl Sim {
         verif_hooks::set_loop_callback(None);
         verif_hooks::reset_clock();
         classify(r)
-    }
-}
-
-pub fn classify(r: std::thread::Result<anyhow::Result<()>>) -> Outcome {
-    match r {
-        Ok(Ok(())) => Outcome::Ok,
-        Ok(Err(e)) => {
-            if let Some(a) = e.downcast_ref::<VerifAbort>() {
-                Outcome::Abort(a.0.clone())
-            } else {
-                Outcome::Err(format!("{:#}", e))
-            }
-        }
-        Err(_) => Outcome::Panic(take_panic().unwrap_or(PanicInfo { file: "?".into(), line: 0, msg: "?".into() })),
-    }
-}
-
-/// Run an arbitrary closure under the same panic capture (component-level checks).
-pub fn guarded<T>(f: impl FnOnce() -> T) -> Result<T, PanicInfo> {
-    let _ = take_panic();
-    match panic::catch_unwind(AssertUnwindSafe(f)) {
-        Ok(v) => Ok(v),
-        Err(_) => Err(take_panic().unwrap_or(PanicInfo { file: "?".into(), line: 0, msg: "?".into() })),
     }
 }
 
